@@ -4,6 +4,7 @@ mod ebr;
 mod list;
 mod pure;
 mod queue;
+mod rc;
 mod sched;
 mod traits;
 mod util;
@@ -37,6 +38,23 @@ fn main() {
             }
             let lines = o.finish();
             println!("ebr: cases={} lines={} monitor_failures={}", n, lines, fails);
+        }
+        "rc" => {
+            let n: usize = arg(&args, "--cases").and_then(|s| s.parse().ok()).unwrap_or(if thorough { 5000 } else { 300 });
+            let mut o = util::Out::create(&out);
+            let mut rng = util::Rng::new(seed);
+            let mut fails = 0;
+            for _ in 0..n {
+                let p = rc::gen_program(&mut rng, thorough);
+                let (line, mon) = rc::run_case(&p, &mut rng, None);
+                o.line(&line);
+                for m in mon {
+                    fails += 1;
+                    o.line(&m);
+                }
+            }
+            let lines = o.finish();
+            println!("rc: cases={} lines={} monitor_failures={}", n, lines, fails);
         }
         "queue" | "list" => {
             let n: usize = arg(&args, "--cases").and_then(|s| s.parse().ok()).unwrap_or(if thorough { 20000 } else { 300 });
